@@ -83,7 +83,7 @@ class Shim:
         import loguru._file_sink as fsm
 
         self._saved = {name: fsm.__dict__.get(name, _MISSING) for name in
-                       ("os", "glob", "shutil", "open", "get_ctime", "set_ctime", "aware_now")}
+                       ("os", "glob", "shutil", "open", "get_ctime", "set_ctime", "aware_now", "datetime")}
         self._real_aware_now = fsm.aware_now
         fsm.os = _OsProxy(self)
         fsm.glob = _GlobProxy(self)
